@@ -30,7 +30,7 @@ REQUIRED_MONITORS = ["weights_nonnegative", "weights_sum_to_one", "flat_unchange
                      "q_calc_strictly_positive", "support_spans_window", "zero_width_exact", "constructs", "invariant_evaluations"]
 REQUIRED_BUCKETS = {"quick": ["geom:pinhole", "geom:slit(L,0)", "geom:slit(0,W)", "geom:slit(L,W)", "geom:2d",
                               "grid:linear", "grid:log", "grid:irregular", "qcalc:default", "qcalc:user", "n:1", "n:2",
-                              "sigma>q", "zero_width", "grid_extension_hits_zero", "perpoint", "directmodel", "acc:low", "acc:med", "acc:high",
+                              "sigma>q", "zero_width", "grid_extension_hits_zero", "perpoint", "directmodel", "directmodel:mixed-zero", "acc:low", "acc:med", "acc:high",
                               "acc:xhigh"]}
 REQUIRED_BUCKETS["thorough"] = REQUIRED_BUCKETS["quick"]
 
@@ -68,7 +68,11 @@ def judge_1d(rec, res, geom, ctx):
     a, b = 3.7, 0.41
     lin = res.apply(a*f + b) - (a*res.apply(f) + b)
     chk("linear_in_scale_background", bool(np.all(np.abs(lin) <= 1e-9*(a + b))), worst=float(np.max(np.abs(lin))))
-    # support: the calculation grid reaches each point's window within one local step
+    judge_support(q, qc, geom, ctx, chk)
+
+
+def judge_support(q, qc, geom, ctx, chk):
+    """support: the calculation grid reaches each point's window within one local step"""
     qmin = float(np.min(q))
     widths = ctx["_widths"]
     bad = None
@@ -161,13 +165,16 @@ def gen_cases(tier, seed):
     return cases
 
 
-def _merge(q, extra):
-    """User grid = data points plus extra points that keep a distance (>= 1e-6 and 1e-3 of the local
-    data spacing) from every data point: a zero width is represented by a 1e-8 wide Gaussian in the code,
-    which grids finer than that cannot resolve (generator hygiene, see DESIGN)."""
+def _merge(q, extra, zero):
+    """User grid = data points plus extra points.  When the widths are zero the extra points keep 2e-7 away
+    from every data point: a zero width is represented by a 1e-8 wide Gaussian in the code, which the
+    harness's own extra points must not land in (generator hygiene, see DESIGN).  With non-zero widths every
+    extra point is kept (an absolute exclusion distance starves the windows of grids that start near 1e-5)."""
     q = np.asarray(q, float)
-    d = np.min(np.abs(extra[:, None] - q[None, :]), axis=1)
-    return np.unique(np.concatenate([q, extra[d >= 1e-6]]))
+    if zero:
+        d = np.min(np.abs(extra[:, None] - q[None, :]), axis=1)
+        extra = extra[d >= 2e-7]
+    return np.unique(np.concatenate([q, extra]))
 
 
 GEOMS = ["pinhole", "slit(L,0)", "slit(0,W)", "slit(L,W)", "2d"]
@@ -211,7 +218,7 @@ def run_batch(case, rec):
                 if user_qcalc:
                     lo, hi = max(float(np.min(q - 2.5*sig)), float(q[0])*0.03), float(np.max(q + 3*sig))
                     extra = np.linspace(lo, hi, int(rng.integers(50, 400)))
-                    qc = _merge(q, extra)
+                    qc = _merge(q, extra, zero)
                 ctx.update(sigma_rel=rel if not zero else 0.0, _widths=(sig,))
                 _run_1d(rec, lambda: resolution.Pinhole1D(q, sig, q_calc=qc), q, zero, ctx, geom, n)
             elif geom.startswith("slit"):
@@ -229,7 +236,7 @@ def run_batch(case, rec):
                         lo = float(q[0])*0.03
                     hi = float(np.max(np.sqrt((q + Wv)**2 + Lv**2)))
                     extra = np.linspace(lo, hi*1.001, int(rng.integers(100, 600)))
-                    qc = _merge(q, extra)
+                    qc = _merge(q, extra, zero)
                 ctx.update(length=L, width=W, _widths=(Lv, Wv))
                 if geom == "slit(0,W)" and not zero:
                     key = None
@@ -271,9 +278,15 @@ def _run_1d(rec, construct, q, zero, ctx, geom, n):
         # unsmeared input at the data points
         direct = np.sin(37.0*np.asarray(q)) + 2.0 + np.asarray(q)
         out = res.apply(f)
+        qcs = np.sort(np.asarray(res.q_calc, float))
+        gap = float(np.min(np.diff(qcs))) if len(qcs) > 1 else float("inf")
+        # zero width is a 1e-8 wide Gaussian in the code: calculation points closer than 8.6 of those widths
+        # (weight > 1e-16) leak into each other; that mechanism is a listed finding, anything else is not
         rec.check("zero_width_exact", bool(np.array_equal(out, direct)),
                   dict({k: v for k, v in ctx.items() if not k.startswith("_") and k != "key"},
-                       max_abs_diff=float(np.max(np.abs(out - direct)))))
+                       max_abs_diff=float(np.max(np.abs(out - direct))), min_q_calc_gap=gap),
+                  key="C03/zero-width-is-1e-8-gaussian-leaks-between-points-closer-than-9e-8"
+                  if gap < 9e-8 and float(np.max(np.abs(out - direct))) <= 40.0*9e-8 else None)
 
 
 class _D2:
@@ -381,10 +394,40 @@ def run_dm(case, rec):
     setups.append(("slit-width", d))
     d2 = sdata.empty_data2D(np.linspace(-0.1, 0.1, 12), resolution=0.05)
     setups.append(("2d", d2))
+    # per-point widths that mix zero and non-zero entries (merged data sets), in several proportions
+    for frac in (0.03, 0.3, 0.9):
+        d = sdata.empty_data1D(q, resolution=0.08)
+        zero = rng.random(len(q)) < frac
+        zero[int(rng.integers(len(q)))] = True
+        zero[0] = False
+        d.dx = np.where(zero, 0.0, d.dx)
+        setups.append(("pinhole-mixed-zero-%g" % frac, d))
     install_invariants()
     for name, data in setups:
         _state["current"], _state["ctx"] = None, None
         calc = direct_model.DirectModel(data, model)
+        if name.startswith("pinhole"):
+            # the resolution object DirectModel chose must request theory over every non-zero window and leave
+            # zero-width points exact
+            res = calc.resolution
+            dx = np.asarray(data.dx, float)
+            ctx = {"geometry": "pinhole", "via": "DirectModel", "setup": name, "n": len(q), "_widths": (dx,)}
+
+            def chk(mon, ok, **extra):
+                return rec.check(mon, ok, None if ok else dict({k: v for k, v in ctx.items() if not k.startswith("_")}, **extra))
+            judge_support(np.asarray(data.x, float), np.asarray(res.q_calc, float), "pinhole", ctx, chk)
+            f = np.sin(37.0*res.q_calc) + 2.0 + res.q_calc
+            out = np.asarray(res.apply(f), float)
+            direct = np.sin(37.0*q) + 2.0 + q
+            if np.any(dx == 0):
+                rec.check("zero_width_exact", bool(np.array_equal(out[dx == 0], direct[dx == 0])),
+                          {"via": "DirectModel", "setup": name, "max_abs_diff": float(np.max(np.abs(out - direct)[dx == 0]))})
+            # a non-zero width must change a curved function
+            smeared = np.abs(out - direct)[dx > 0]
+            rec.check("nonzero_width_is_smeared", bool(np.all(smeared > 1e-9)),
+                      {"via": "DirectModel", "setup": name, "unsmeared_points": int(np.sum(smeared <= 1e-9)),
+                       "resolution_class": type(res).__name__})
+            rec.bucket("directmodel:mixed-zero" if "mixed" in name else "directmodel:pinhole")
         pars = {"radius": 60.0, "sld": 1.0, "sld_solvent": 6.0}
         base = calc(scale=1.0, background=0.0, **pars)
         for _ in range(3):
